@@ -168,4 +168,26 @@ example :
      | .err e => e.info == "while scanning a quoted scalar, found unexpected end of stream"
      | _ => false) = true := by decide +kernel
 
+open SaphyrModel.Sc in
+/-- **An unknown escape is rejected**, in every scanner state on a string input: a backslash followed by any
+    character that is not one of the 18 named escapes and not `x`, `u`, `U` (this includes the end of the
+    input) makes `resolve_flow_scalar_escape_sequence` return an error. -/
+theorem unknown_escape_rejected (sm : Marker) (s : Sc) (hk : s.inp.kind = .str) (e : Char)
+    (he : s.inp.iter.getD 1 '\x00' = e) (hn : namedEscape e = none) (hx : e ≠ 'x') (hu : e ≠ 'u') (hU : e ≠ 'U') :
+    ∃ err, resolveEscape sm s = .err err :=
+  resolveEscape_unknown sm s hk e he hn hx hu hU
+
+open SaphyrModel.Sc in
+/-- **A truncated or malformed hexadecimal escape is rejected**, for every text: if any of the `n` characters
+    that should be hexadecimal digits is not one (a sign, a blank, a quote, the end of the input — anything for
+    which `is_hex` says no), the digit loop returns an error, whatever the other digits are. -/
+theorem nonhex_escape_rejected (sm : Marker) (n : Nat) (s : Sc) (hk : s.inp.kind = .str)
+    (hbad : ∃ j, j < n ∧ isHex (s.inp.iter.getD j '\x00') = false) :
+    ∃ e, hexLoop sm n n 0 s = .err e := by
+  obtain ⟨j, hj, hb⟩ := hbad
+  exact hexLoop_rejects sm n n 0 s hk (Nat.le_refl _) ⟨j, hj, by rw [Nat.sub_self, Nat.zero_add]; exact hb⟩
+
+/-- the characters that are hexadecimal digits are exactly 0-9, a-f, A-F: in particular no sign -/
+example : Sc.isHex '+' = false ∧ Sc.isHex '-' = false ∧ Sc.isHex ' ' = false ∧ Sc.isHex 'g' = false ∧ Sc.isHex '\x00' = false := by decide
+
 end SaphyrModel.C06
